@@ -45,6 +45,65 @@ theorem decode_encode (fmt : Format) (crc : Bytes → Nat) (e : Entry) (rest : B
 example : (Entry.mk' .v2 Driver.crc32 [1, 2, 255] 7).Good .v2 Driver.crc32 := by decide +kernel
 example : (Entry.mk' .v1 Driver.crc32 [] 7).Good .v1 Driver.crc32 := by decide +kernel
 
+/-! ## the length field is a 32-bit value: no wrap in the size test -/
+
+/-- the size test of the CURRENT code (`WAL_ENTRY_OVERHEAD.checked_add(data_len)?` in `usize`,
+    then `data.len() < total_size`): for EVERY 32-bit length and every number of remaining
+    bytes it rejects exactly when `16 + len > remaining`, and otherwise slices `data[16..16+len]`
+    — which is the comparison the model's `decode` makes in unbounded `Nat` -/
+theorem decode_total_no_wrap (remaining len : Nat) (hl : len < 2 ^ 32) :
+    sizeTest .usizeChecked overhead remaining len
+      = if remaining < overhead + len then .reject else .slice (overhead + len) := by
+  unfold sizeTest totalSize overhead
+  simp only
+  rw [if_pos (by omega)]
+  simp only
+  split
+  · rfl
+  · rw [if_neg (by omega)]
+
+/-- the length `decode` reads from four BYTES is a 32-bit value -/
+theorem decode_len_is_u32 (bs : Bytes) (hb : ∀ b ∈ bs, b < 256) : leVal (bs.take 4) < 2 ^ 32 := by
+  have h := leVal_lt (bs.take 4) (fun b hbm => hb b (List.mem_of_mem_take hbm))
+  have hl : (bs.take 4).length ≤ 4 := by rw [List.length_take]; omega
+  calc leVal (bs.take 4) < 256 ^ (bs.take 4).length := h
+    _ ≤ 256 ^ 4 := Nat.pow_le_pow_right (by decide) hl
+    _ = 2 ^ 32 := by decide
+
+/-- the same holds for every `offset + len` bound test done with a plain `usize` addition
+    (record lengths in a segment, data length of a checkpoint): offsets are below `2^63`
+    (allocation limit), lengths are 32-bit -/
+theorem size_test_no_wrap (a : SizeArith) (ha : a ≠ .u32Wrapping) (base remaining len : Nat)
+    (hb : base < 2 ^ 63) (hl : len < 2 ^ 32) :
+    sizeTest a base remaining len = if remaining < base + len then .reject else .slice (base + len) := by
+  cases a with
+  | u32Wrapping => exact absurd rfl ha
+  | usizeChecked =>
+    unfold sizeTest totalSize
+    simp only
+    rw [if_pos (by omega)]
+    simp only
+    split
+    · rfl
+    · rw [if_neg (by omega)]
+  | usizeWrapping =>
+    unfold sizeTest totalSize
+    simp only
+    rw [Nat.mod_eq_of_lt (by omega)]
+    split
+    · rfl
+    · rw [if_neg (by omega)]
+
+/-- … and it is FALSE of 32-bit wrapping arithmetic (`(WAL_ENTRY_OVERHEAD as u32 + data_len) as
+    usize`): a length field in 0xFFFFFFF0..=0xFFFFFFFF (a tail that reads back as erased flash)
+    with 16 bytes remaining is ACCEPTED with a total of 0..15, and the payload slice
+    `data[16..total]` panics — recovery crashes instead of stopping at the last intact entry -/
+theorem size_wrap_counterexample :
+    sizeTest .u32Wrapping overhead 16 0xFFFFFFF0 = .crash ∧
+    sizeTest .u32Wrapping overhead 16 0xFFFFFFFF = .crash ∧
+    sizeTest .usizeChecked overhead 16 0xFFFFFFF0 = .reject ∧
+    sizeTest .usizeChecked overhead 16 0xFFFFFFFF = .reject := by decide
+
 /-! ## torn files -/
 
 /-- the whole file reads back exactly what was appended, in append order -/
